@@ -760,13 +760,29 @@ fn interpret(env: &Env, h: &History, dir: &Path) -> CaseResult {
                         Some(want) => {
                             res.judged += 1;
                             if got.as_deref() != Some(&want[..]) {
+                                // root-cause key: what the build found at the output path
                                 let before_state = match &before_out[vi].0 {
-                                    None => "absent",
-                                    Some(b) if b[..] == want[..] => "current",
-                                    Some(_) => "not-current",
+                                    None => "output-absent",
+                                    Some(b) if b[..] == want[..] => "output-current",
+                                    Some(b) => {
+                                        let (b1, b2, _, _) = split_lines(b);
+                                        let (w1, w2, _, _) = split_lines(&want);
+                                        if b1 != w1 {
+                                            "version-line-differs"
+                                        } else if b2 != w2 {
+                                            if valid_texts().iter().any(|t| env.refs.f(t).as_deref() == Some(&b[..])) {
+                                                "complete-output-of-other-text"
+                                            } else {
+                                                "hash-line-differs"
+                                            }
+                                        } else {
+                                            "intact-header-other-body"
+                                        }
+                                    }
                                 };
+                                let _ = cause;
                                 res.fail = Some((
-                                    format!("C21/wrong-output-after-build/{}after-{cause}", if *forced { "forced-" } else { "" }),
+                                    format!("C21/wrong-output-after-build/{}{before_state}", if *forced { "forced-" } else { "" }),
                                     format!(
                                         "after {} the output {rel} of {} is {}; a forced build of its current text gives {} bytes (before the build the output was {before_state}; events since its last build: {:?})",
                                         op.short(), FILES[*f].0, describe_bytes(&got), want.len(), ev
@@ -985,7 +1001,7 @@ pub fn run(ctx: Ctx, replay: Option<PathBuf>) -> i32 {
     }
     ck.replay_listed(|ck, v| replay_case(&env, ck, v));
 
-    let cases = ctx.tier.pick(700usize, 14_000usize);
+    let cases = ctx.tier.pick(500usize, 12_000usize);
     let tapes = tape::sample_tapes(ctx.seed, cases, 0, 160);
     let results = par_map(&tapes, ctx.threads, |i, t| {
         let h = gen_history(&mut Tape::new(t), &pools);
@@ -1041,12 +1057,13 @@ pub fn run(ctx: Ctx, replay: Option<PathBuf>) -> i32 {
     ck.extra.insert("self_checks".into(), json!({"pool_texts_built": all.len()}));
 
     // minimise the first failing tape of each signature, then report
-    for (sig, i) in first_fail {
+    for (nth, (sig, i)) in first_fail.into_iter().enumerate() {
         let known = ck.is_known(&sig);
         let mut tape_min = tapes[i].clone();
-        if !known {
+        // minimising costs a build per candidate step: only the first few signatures
+        if !known && nth < 4 {
             let mut k = 0usize;
-            tape_min = tape::shrink_tape(&tapes[i], ctx.tier.pick(150, 400), |cand| {
+            tape_min = tape::shrink_tape(&tapes[i], ctx.tier.pick(70, 300), |cand| {
                 k += 1;
                 let h = gen_history(&mut Tape::new(cand), &pools);
                 let dir = env.ctx.work.join(format!("shrink/s{i}_{k}"));
